@@ -4,6 +4,9 @@ Trace == ndJsonDeserialize("trace.ndjson")
 VARIABLES l, nrej
 KeyReasons(e, k) ==
    {<<e.lints[j], e.st[j]>> : j \in {i \in 1..Len(e.lints) : e.lints[i] \in KeyLints /\ ~VerdictOK(e.lints[i], k, e.st[i])}} \cup
+   \* siblings (e.rules[i] = the anchored rule whose name the lint's name ends in): the same predicate, at the lint's own level
+   {<<e.lints[j], e.st[j]>> : j \in {i \in 1..Len(e.lints) : e.lints[i] \notin KeyLints /\ e.rules[i] \in KeyLints /\
+                                        ~(e.st[i] \in Judged => e.st[i] = (IF Predicate(e.rules[i], k) THEN e.levels[i] ELSE Pass))}} \cup
    (IF e.factorsOK THEN {} ELSE {<<"reported-factors-do-not-multiply-back", 0>>})
 Reasons(e) == CASE e.ev = "SmallKey" -> KeyReasons(e, SmallFacts(e.n, e.e, e.rounds))
                 [] e.ev = "BigKey" -> KeyReasons(e, [bits |-> e.bits, even |-> e.even, small |-> e.small, e |-> e.e, fermat |-> e.fermat])
